@@ -153,3 +153,11 @@ REG["C07"] = {
                    "with random, affine-along-normal and constant-along-normal fields and grid_level; each pixel must equal the interpolation of one of the acceptable sample pairs (1e-9)."),
     "level_note": _NOTE,
 }
+
+REG["C16"] = {
+    "technique": "TLC model checking of SlicePlt.tla over Mesh.tla (per-level / per-side reduction with crossed boxes first, half-cell neighbours, one-sided clamp; ByLevelRefines against LevelAcceptable, BoxesWritten, ChunkingKeepsAll) + replay with fformat='plotfile' into the real Mandoline, the written 2-D plotfile parsed independently and judged by the real taste",
+    "level_text": ("Every mesh within the bounds x every in-domain lattice position x every limit is model-checked; a seed-selected residue class of scenarios is replayed for all six axis assignments, serial/parallel, four field lists with poisoned numpy.empty; "
+                   "checked: well-formed 2-D plotfile, taste (with box coordinates) good, time, in-plane geometry and cell sizes, per level exactly the footprints of the crossed boxes, every written value against the interpolation of an acceptable own-level pair, min/max rows against the written data; "
+                   "one configuration writes 1.18 MB at a level (two files)."),
+    "level_note": _NOTE,
+}
